@@ -164,7 +164,7 @@ def gen(tier, seed):
             rid = f"t{n}"
             recs.append(one(rid, fname, call, proxy, ca, cb, True))
             meta[rid] = {"A": sa, "B": sb, "fn": fname, "needle": True, "off": off.tolist()}
-    # pinned input of the known finding epa:incomplete-gjk-simplex (deterministic): the same cube hull passed twice
+    # pinned input of the repaired capacity defect (former finding epa:incomplete-gjk-simplex of C19): the same cube hull passed twice
     A = NW.Body({"kind": "hull", "V": S.HULLS["cube"]}, [[0, 1, 0], [0, 0, 1], [1, 0, 0]], [-2, 3, 2], 0, "ConvexHullVertices")
     drive(A, A, NW.IDENT, same=True, names=("epa",))
     return recs, meta
@@ -193,11 +193,7 @@ def run(tier, seed):
     rejects = trace.judge(recs, "narrow", "NarrowTrace", "NarrowTrace.cfg", "c19", res)
     for rid, clauses in sorted(rejects.items(), key=lambda kv: int(kv[0][1:])):
         m, r = meta[rid], byid[rid]
-        if "ZONE_IncompleteSimplex" in clauses:
-            clauses = clauses - {"ZONE_IncompleteSimplex"}
-            key = "epa:incomplete-gjk-simplex"
-        else:
-            key = f"{m['fn']}:{r['exc']}:{'+'.join(sorted(clauses))}:{chash(m)}"
+        key = f"{m['fn']}:{r['exc']}:{'+'.join(sorted(clauses))}:{chash(m)}"
         res.violation(key, "+".join(sorted(clauses)), f"{m['fn']} exc={r['exc']} finite={r['finite']} calls={r['supportCalls']} scene={str(m)[:400]}",
                       {"meta": m, "record": r, "seed": seed})
     res.coverage["evaluations"] = len(recs)
